@@ -27,9 +27,9 @@ import common as C  # noqa: E402
 import exedriver    # noqa: E402
 from floatcmp import f2b, b2f  # noqa: E402
 
-GEN = ['ShortRateR', 'Effects']    # meanr / variancer / zero_price of vasicek_mc.py, cir_montecarlo.py (Props/C19g); effect summaries (Props/C19h)
+GEN = ['ShortRateR', 'Effects', 'McLoopR', 'VasLoopR']    # McLoopR / VasLoopR: loops of get_gbm_paths / get_vasicek_paths cut from the source (registry/mcloops.py, vasloops.py; Props/C19j, C19k); meanr / variancer / zero_price of vasicek_mc.py, cir_montecarlo.py (Props/C19g); effect summaries (Props/C19h)
 PROPS = ['FinVerif.Props.C19a', 'FinVerif.Props.C19b', 'FinVerif.Props.C19c', 'FinVerif.Props.C19d', 'FinVerif.Props.C19e',
-         'FinVerif.Props.C19f', 'FinVerif.Props.C19g', 'FinVerif.Props.C19h', 'FinVerif.Props.C19i']
+         'FinVerif.Props.C19f', 'FinVerif.Props.C19g', 'FinVerif.Props.C19h', 'FinVerif.Props.C19i', 'FinVerif.Props.C19j', 'FinVerif.Props.C19k']
 DRIVERS = ['FinVerif.Driver.C19']
 
 RULE = ('correspondence: for each modelled kernel, cases (parameters, seed, path/step counts) drawn from VERIF_SEED; the '
@@ -324,7 +324,7 @@ def adopt_local_findings(ctx):
 
 def run(ctx):
     adopt_local_findings(ctx)
-    drivers_ok = C.lean_stage(ctx, GEN, PROPS, DRIVERS, extra_files=['FinVerif/Lemmas/C19.lean', 'FinVerif/Spec/C19.lean'])
+    drivers_ok = C.lean_stage(ctx, GEN, PROPS, DRIVERS, extra_files=['FinVerif/Lemmas/C19.lean', 'FinVerif/Spec/C19.lean', 'FinVerif/Lemmas/C20Loop.lean'])
     C.import_financepy()
     rng0 = ctx.rng('battery')
     bseeds = [rng0.randint(1, 2 ** 31 - 1), rng0.randint(1, 2 ** 31 - 1)]
